@@ -62,9 +62,18 @@ func newInstance(c Cfg) *plenc.Plenc {
 	}
 	if c.WithCustom {
 		// the model's custom_regs: int64 flat (overriding the default), tag "zz" for string and int32
-		p.RegisterCodec(reflect.TypeOf(int64(0)), plenccodec.FlatIntCodec[uint64]{})
-		p.RegisterCodecWithTag(reflect.TypeOf(""), "zz", plenccodec.StringCodec{})
-		p.RegisterCodecWithTag(reflect.TypeOf(int32(0)), "zz", plenccodec.IntCodec[int32]{})
+		// (the codecs are taken from the instance's own defaults rather than named, so that a change
+		// to the exported codec types shows as a behavioural difference, not as a harness that does
+		// not compile)
+		flat64, e1 := p.CodecForTypeWithTag(reflect.TypeOf(int64(0)), "flat")
+		str, e2 := p.CodecForType(reflect.TypeOf(""))
+		i32, e3 := p.CodecForType(reflect.TypeOf(int32(0)))
+		if e1 != nil || e2 != nil || e3 != nil {
+			panic(fmt.Sprint("default codecs missing: ", e1, e2, e3))
+		}
+		p.RegisterCodec(reflect.TypeOf(int64(0)), flat64)
+		p.RegisterCodecWithTag(reflect.TypeOf(""), "zz", str)
+		p.RegisterCodecWithTag(reflect.TypeOf(int32(0)), "zz", i32)
 	}
 	if c.WithBQ {
 		p.RegisterCodecWithTag(tTime, "bq", plenccodec.BQTimestampCodec{})
